@@ -282,7 +282,7 @@ def run_items(b, exe, d, name, setup, items, item_ms=3000, timeout=240):
     p0 = None
     nsetup = len(setup)
     rounds = 0
-    while skip < len(items) and rounds < 10:
+    while skip < len(items) and rounds < 14:
         rounds += 1
         cmd = [exe, path, "--skip", str(skip + nsetup if skip else 0), "--item-ms", str(item_ms), "--heap", str(4 << 20), "--max", str(256 << 20)]
         if skip:
@@ -328,13 +328,13 @@ def run_items(b, exe, d, name, setup, items, item_ms=3000, timeout=240):
         if done and r.rc == 0 and not r.sanitizer_report() and not hc:
             break
         # fatal event: blame the last announced item
-        ev = {"idx": last, "how": "timeout" if r.timed_out else r.describe(), "sanitizer": r.sanitizer_report(),
+        ev = {"idx": last, "how": "timeout" if (r.timed_out or r.rc == 77) else r.describe(), "sanitizer": r.sanitizer_report(),
               "stderr": r.err[-2500:], "heapcheck": hc[:3]}
         fatal.append(ev)
         if last is None:
             break
         skip = last + 1
-    if skip < len(items) and rounds >= 10:
+    if skip < len(items) and rounds >= 14:
         fatal.append({"idx": skip, "how": "too-many-restarts", "skipped": len(items) - skip, "stderr": "", "sanitizer": None})
     return records, fatal, p0
 
